@@ -509,7 +509,6 @@ def _same(a, b):
 
 
 def do_factory(it, tally):
-    import torch
     from torchtree import Parameter
 
     tt.boot()
